@@ -24,7 +24,9 @@ class Unpicklable:
 
 
 _EXC = {"ValueError": ValueError, "KeyError": KeyError, "RuntimeError": RuntimeError, "Boom": Boom,
-        "ZeroDivisionError": ZeroDivisionError, "AssertionError": AssertionError, "StopIteration": StopIteration}
+        "ZeroDivisionError": ZeroDivisionError, "AssertionError": AssertionError, "StopIteration": StopIteration,
+        # the kinds a missing binary / full disk / broken pipe produce inside a worker
+        "OSError": OSError, "FileNotFoundError": FileNotFoundError, "BrokenPipeError": BrokenPipeError}
 
 
 def task(spec: dict, *extra: Any) -> Any:
@@ -68,6 +70,8 @@ class FakeGeneFinding:
     def run_on_record(record: Any, options: Any) -> None:
         if str(record.id).endswith("bad"):
             raise ValueError(f"gene finding failed for {record.id}: sequence not usable")
+        if str(record.id).endswith("nobin"):
+            raise FileNotFoundError(2, "No such file or directory", "prodigal")   # the tool's binary is missing
         from antismash.common.secmet.features import CDSFeature
         from antismash.common.secmet.locations import FeatureLocation
         length = len(record.seq)
